@@ -54,8 +54,8 @@ func (f *YOrNP) Call(s *slip.Scope, args slip.List, depth int) (result slip.Obje
 		prompt = append(prompt, ' ')
 	}
 	prompt = append(prompt, "(y or n) "...)
-	w := s.Get("*standard-output*").(io.Writer)
-	r := s.Get("*standard-input*").(io.Reader)
+	w := s.WriterVar("*standard-output*", depth)
+	r := s.ReaderVar("*standard-input*", depth)
 
 top:
 	for {
